@@ -6,36 +6,47 @@ VERIF = os.path.dirname(os.path.dirname(os.path.abspath(__file__)))
 man = json.load(open(os.path.join(VERIF, "MANIFEST.json")))
 allp = [c["property_id"] for c in man["checks"]]
 args = [a for a in sys.argv[1:] if not a.startswith("--")]
-bad = 0
-evd = tempfile.mkdtemp(prefix="benign-ev-")
-try:
-    for patch in sorted(glob.glob(os.path.join(VERIF, "seeded", "benign", "*.diff"))):
-        if args and not any(a in patch for a in args):
-            continue
-        work = tempfile.mkdtemp(prefix="benign-")
-        try:
-            subprocess.check_call(["rsync", "-a", "--exclude", "target", "--exclude", ".git", "/repo/", work + "/"])
-            r = subprocess.run(["patch", "-p1", "-s", "-d", work, "-i", patch], capture_output=True, text=True)
+import concurrent.futures as cf
+jobs = 4
+if "-j" in sys.argv:
+    jobs = int(sys.argv[sys.argv.index("-j") + 1])
+    args = [a for a in args if a not in (str(jobs), "-j")]
+evd_root = tempfile.mkdtemp(prefix="benign-ev-")
+
+
+def one(patch):
+    work = tempfile.mkdtemp(prefix="benign-")
+    evd = tempfile.mkdtemp(prefix="ev-", dir=evd_root)
+    try:
+        subprocess.check_call(["rsync", "-a", "--exclude", "target", "--exclude", ".git", "/repo/", work + "/"])
+        r = subprocess.run(["patch", "-p1", "-s", "-d", work, "-i", patch], capture_output=True, text=True)
+        if r.returncode != 0:
+            return patch, "DOES NOT APPLY %s" % r.stdout[:200], True
+        if "--skip-tests" not in sys.argv:
+            env = dict(os.environ, CARGO_TARGET_DIR=os.path.join(work, "target"))
+            r = subprocess.run(["cargo", "test", "--workspace", "--no-fail-fast", "--offline"], cwd=work, env=env, capture_output=True, text=True)
+            lines = [l for l in (r.stdout + r.stderr).splitlines() if l.startswith("test result")]
+            ok = r.returncode == 0 and all(" 0 failed" in l for l in lines) and len(lines) >= 4
+            shutil.rmtree(os.path.join(work, "target"), ignore_errors=True)
+            if not ok:
+                return patch, "TESTS FAIL (not a benign variant)", True
+        env = dict(os.environ, VERIF_REPO=work, VERIF_EVIDENCE_DIR=evd)
+        alarms, und = [], 0
+        for p in allp:
+            r = subprocess.run([os.path.join(VERIF, "check"), p], env=env, cwd=VERIF, capture_output=True, text=True)
+            und += sum(1 for l in r.stdout.splitlines() if l.startswith("UNDECIDED"))
             if r.returncode != 0:
-                print("%s: DOES NOT APPLY %s" % (os.path.basename(patch), r.stdout[:200])); bad += 1; continue
-            if "--skip-tests" not in sys.argv:
-                env = dict(os.environ, CARGO_TARGET_DIR=os.path.join(work, "target"))
-                r = subprocess.run(["cargo", "test", "--workspace", "--no-fail-fast", "--offline"], cwd=work, env=env, capture_output=True, text=True)
-                lines = [l for l in (r.stdout + r.stderr).splitlines() if l.startswith("test result")]
-                ok = r.returncode == 0 and all(" 0 failed" in l for l in lines) and len(lines) >= 4
-                shutil.rmtree(os.path.join(work, "target"), ignore_errors=True)
-                if not ok:
-                    print("%s: TESTS FAIL (not a benign variant)" % os.path.basename(patch)); bad += 1; continue
-            env = dict(os.environ, VERIF_REPO=work, VERIF_EVIDENCE_DIR=evd)
-            alarms = []
-            for p in allp:
-                r = subprocess.run([os.path.join(VERIF, "check"), p], env=env, cwd=VERIF, capture_output=True, text=True)
-                if r.returncode != 0:
-                    alarms.append((p, [l.strip()[:200] for l in r.stdout.splitlines() if l.startswith("  ") and "/" in l][:4]))
-            print("%s: %s" % (os.path.basename(patch), "silent" if not alarms else "FALSE ALARMS %s" % alarms))
-            bad += bool(alarms)
-        finally:
-            shutil.rmtree(work, ignore_errors=True)
-finally:
-    shutil.rmtree(evd, ignore_errors=True)
+                alarms.append((p, [l.strip()[:200] for l in r.stdout.splitlines() if l.startswith("  ") and "/" in l][:4]))
+        return patch, ("silent (undecided rows: %d)" % und) if not alarms else "FALSE ALARMS %s" % alarms, bool(alarms)
+    finally:
+        shutil.rmtree(work, ignore_errors=True)
+
+
+patches = [p for p in sorted(glob.glob(os.path.join(VERIF, "seeded", "benign", "*.diff"))) if not args or any(a in p for a in args)]
+bad = 0
+with cf.ThreadPoolExecutor(max_workers=jobs) as ex:
+    for patch, msg, isbad in ex.map(one, patches):
+        print("%s: %s" % (os.path.basename(patch), msg), flush=True)
+        bad += isbad
+shutil.rmtree(evd_root, ignore_errors=True)
 sys.exit(1 if bad else 0)
